@@ -301,6 +301,7 @@ def run(ctx: core.Ctx):
         shards = [((), maxlen, True)] + [((pc,), maxlen, True) for pc in PIECES]
         shards += [((a, b), maxlen, False) for a in PIECES for b in PIECES]
     ctx.pmap(multi_shard, shards)
+    ctx.viol.sort(key=lambda sd: (len(sd[1].get("msg", "")), sd[1].get("msg", "")))  # keep the shortest failing case per signature
     if ctx.counters.get("multi_cases_expected_literal", 0) < 100:
         raise core.HarnessError("piece alphabet did not bite: almost no literal-valued concatenations")
     ctx.cov["bounds"] = {"pieces": PIECES, "max_pieces": maxlen, "contexts": CONTEXT_EXPRS, "modes": MODES,
